@@ -71,13 +71,16 @@ def _make_function(family: str, p: list[float]):
         return lambda x: 2.0 if (_bits(x) >> 3) % m == 0 else 1.0
     if family == "divergent":          # 1/x-like
         return lambda x: (1 / (x - c)) if x != c else math.inf
+    if family == "divergent_pow":      # like the suite's fdiv: |x - c| ** -1.1 .. -1.6
+        e = -(1.1 + 0.5 * abs(k))
+        return lambda x: (abs(x - c) ** e) if x != c else math.inf
     if family == "divergent_abs":
         return lambda x: (1 / abs(x - c)) if x != c else math.inf
     raise ValueError(family)
 
 
 FAMILIES = ["smooth_exp", "smooth_sin", "poly", "const", "peaked", "step", "kink", "sqrt_sing", "inv_sqrt",
-            "nonfinite_nodes", "isolated_dev", "divergent", "divergent_abs"]
+            "nonfinite_nodes", "isolated_dev", "divergent", "divergent_abs", "divergent_pow"]
 BOUNDS = [(0, 1), (-1, 1), (0.0, 3.0), (-2.5, 7.25), (1e-3, 1e3), (-1, 0), (0, 1e-6), (3, 4)]
 
 
@@ -85,7 +88,7 @@ def draw_config(rng, family=None):
     family = family or rng.choice(FAMILIES)
     lo, hi = rng.choice(BOUNDS)
     r = rng.random()
-    if family in ("divergent", "divergent_abs", "inv_sqrt", "sqrt_sing") and r < 0.6:
+    if family in ("divergent", "divergent_abs", "divergent_pow", "inv_sqrt", "sqrt_sing") and r < 0.6:
         c = lo if rng.random() < 0.7 else (lo + hi) / 2          # singular at an end point / at the first midpoint
     elif r < 0.5:
         c = lo + (hi - lo) * rng.random()
@@ -329,12 +332,12 @@ class Recorder:
 
 # ----------------------------------------------------------------------
 # schedules: a schedule is a generator of abstract actions executed by `drive`
-def drive_schedule(rec: Recorder, rng, mode: str, max_tells: int, max_ops: int, foreign_rate=0.03):
+def drive_schedule(rec: Recorder, rng, mode: str, max_tells: int, max_ops: int, foreign_rate=0.03, ntasks=None):
     """Drive the learner like a parallel runner would.  Returns when the op
     budget is used up, the learner is done, or an error ended the run."""
     l = rec.l
     inflight: list[float] = []
-    ntasks = rng.randint(1, 16)
+    ntasks = ntasks or rng.randint(1, 16)
     tells = 0
     held: list[float] = []      # adversarial: points held back until everything else arrived
     lo, hi = rec.cfg["bounds"]
@@ -342,7 +345,7 @@ def drive_schedule(rec: Recorder, rng, mode: str, max_tells: int, max_ops: int, 
         # --- ask
         if mode == "runner":
             n = max(0, ntasks - len(inflight))
-            if rng.random() < 0.1:
+            if rng.random() < 0.1 and foreign_rate:
                 n = rng.randint(1, 50)
         elif mode == "batch":
             n = rng.randint(1, 50)
